@@ -235,3 +235,50 @@ def exc_signature(e):
             where = 'generated.' + fr.name
             break
     return '%s@%s' % (type(e).__name__, where)
+
+
+def flat(xs):
+    """ITERATIVE pre-order token list of engine terms (no Python recursion, no get_value): usable as a projection
+    function under a lowered recursion limit.  Unbound variables are numbered by first occurrence."""
+    out = []
+    seen = {}
+    stack = list(reversed(list(xs)))
+    while stack:
+        x = stack.pop()
+        while isinstance(x, Variable) and x._is_bound:
+            x = x._value
+        if isinstance(x, Variable):
+            if id(x) not in seen:
+                seen[id(x)] = len(seen)
+            out.append(('v', seen[id(x)]))
+        elif isinstance(x, Atom):
+            out.append(('a', x._name))
+        elif isinstance(x, Functor):
+            out.append(('f', x._name, len(x._args)))
+            stack.extend(reversed(x._args))
+        elif isinstance(x, bool):
+            out.append(('pyconst', repr(x)))
+        elif isinstance(x, int):
+            out.append(('i', x))
+        else:
+            out.append(('pyconst', repr(x)))
+    return tuple(out)
+
+
+def flat_ref(ts):
+    """the same token list for (canonical) reference terms"""
+    out = []
+    seen = {}
+    stack = list(reversed(list(ts)))
+    while stack:
+        t = stack.pop()
+        if t[0] == 'v':
+            if t not in seen:
+                seen[t] = len(seen)
+            out.append(('v', seen[t]))
+        elif t[0] == 'f':
+            out.append(('f', t[1], len(t[2])))
+            stack.extend(reversed(t[2]))
+        else:
+            out.append(t)
+    return tuple(out)
